@@ -137,6 +137,12 @@ func c02Strata() []*gast.Grammar {
 		// action inside an alternative that is abandoned later
 		mk(r("S", gast.C(gast.S(gast.A(gast.Lab("a", gast.Plus(gast.Cl(gast.Chars("a\n")))), 1, mon.Spec{}), gast.L("x")),
 			gast.A(gast.Lab("b", gast.Star(gast.Dot())), 2, mon.Spec{})))),
+		// a handler in an outer rule binds a label that also exists in the rule that throws; the throw is
+		// reached through label-free constructs
+		mk(r("S", gast.Star(gast.S(gast.Ref("Line"), gast.Opt(gast.L("\n"))))),
+			r("Line", gast.Rec(gast.A(gast.S(gast.Lab("n", gast.Ref("W")), gast.L("="), gast.Lab("v", gast.Ref("Value"))), 3, mon.Spec{}), gast.A(gast.Lab("d", gast.Star(gast.Cl(&gast.ClassSpec{Chars: []rune("\n"), Inverted: true}))), 4, mon.Spec{}), "L1")),
+			r("Value", gast.A(gast.S(gast.Lab("d", gast.Plus(gast.Cl(gast.Chars("01")))), gast.Lab("e", gast.C(gast.L(";"), gast.Opt(gast.S(gast.NotE(gast.L("\n")), gast.Thr("L1")))))), 1, mon.Spec{})),
+			r("W", gast.A(gast.Plus(gast.Cl(gast.Chars("ab"))), 5, mon.Spec{R: 2}))),
 		// a block written directly in a recovery expression, using a label bound in the guarded sequence
 		// by the sequence that also holds the throw
 		mk(r("S", gast.Star(gast.C(gast.Ref("Good"), gast.Ref("Bad"), gast.A(gast.Dot(), 9, mon.Spec{})))),
@@ -555,6 +561,11 @@ func c12Strata() []*gast.Grammar {
 	digit := func() *gast.Expr { return gast.Cl(&gast.ClassSpec{Ranges: [][2]rune{{'0', '9'}}}) }
 	return []*gast.Grammar{
 		wide,
+		// end of input expected on several backtracking paths at the farthest offset
+		mk(r("S", gast.C(gast.S(gast.Ref("A"), gast.L(";")), gast.S(gast.Ref("A"), gast.NotE(gast.Dot())), gast.S(gast.Ref("A"), gast.Star(gast.L(" ")), gast.NotE(gast.Dot())), gast.S(gast.Ref("A"), gast.NotE(gast.NotE(gast.NotE(gast.Dot())))))),
+			r("A", gast.S(gast.Cl(gast.Chars("ab")), gast.L("="), gast.Plus(digit())))),
+		// a repetition over a class inside a negative predicate, through a rule reference
+		mk(r("S", gast.S(gast.NotE(gast.Ref("Digits")), gast.Ref("Word"), gast.L("'"))), r("Digits", gast.Plus(digit())), r("Word", gast.Plus(gast.Cl(gast.Chars("ab01"))))),
 		// the same terminal text inside a negative predicate and outside it, tried at the same offset
 		mk(r("S", gast.S(gast.NotE(digit()), gast.Plus(gast.Ref("IdChar")), gast.NotE(gast.Dot()))), r("IdChar", gast.C(gast.Cl(&gast.ClassSpec{Ranges: [][2]rune{{'a', 'z'}}}), digit(), gast.L("_")))),
 		mk(r("S", gast.S(gast.NotE(gast.S(gast.L("if"), gast.NotE(gast.Cl(gast.Chars("ab"))))), gast.C(gast.L("if"), gast.Plus(gast.Cl(gast.Chars("ab")))), gast.L(";")))),
